@@ -175,7 +175,7 @@ impl Property for C01 {
         "C01"
     }
     fn rule(&self) -> &'static str {
-        "proptest single cases: gateway config (domain, retention 0-3 or u64::MAX(-1), 1-3 initial sets, 0-4 honest rotations), signer sets of 1-8 keys with weights from {1, small, 2^64, u128::MAX - rest} and thresholds from {1, total, total-1, subset sums}, a signing subset (full / exactly the threshold subset / one short / random bitmask / prefix), a batch of 1-4 messages of which any subset may have been honestly approved in an earlier call, optionally right after accepted proofs by the same set, and at most one perturbation (digest component, per-signature corruption, declared-set tampering with or without re-signing, batch substitution, never-installed set); both validate_proof and approve_messages. Oracle: digest = own keccak(domain || keccak(ownXDR(set)) || keccak(ownXDR((kind,batch)))), acceptance = set installed and within retention and weight of verify_strict-valid signatures >= threshold. non-trivial = perturbation present, or signing subset not a prefix, or signed weight == threshold exactly; distinct by Debug hash. A share of the random cases is an entry-point sweep (construction as described for C13: the exported functions of all shipped contracts read from the sources of the tree under test, a complete deployed system, pooled arguments - including well-formed signer sets nobody installed and proofs properly signed by the gateway's own signer set over digests that belong to no command -, every require_auth satisfied by the host's mock and recorded; entry points absent from the pinned inventory get 300 deterministic cases each); oracle: no call approves a message (status of pre-approved and fresh ids, message_approved events) since no valid proof for any approval exists in these cases; non-trivial = the call succeeded"
+        "proptest single cases: gateway config (domain, retention 0-3 or u64::MAX(-1), 1-3 initial sets, 0-4 honest rotations), signer sets of 1-8 keys with weights from {1, small, 2^64, u128::MAX - rest} and thresholds from {1, total, total-1, subset sums}, a signing subset (full / exactly the threshold subset / one short / random bitmask / prefix), a batch of 1-4 messages of which any subset may have been honestly approved in an earlier call, optionally right after accepted proofs by the same set, and at most one perturbation (digest component, per-signature corruption, declared-set tampering with or without re-signing, batch substitution, never-installed set) - batch substitutions include an entry the signers never saw that repeats the (chain, id) of a signed message, in front or at the end, and a signed message listed twice -; the studied submission may have been shown, byte for byte, to the standalone check or the studied entry point right after its signer set was installed; both validate_proof and approve_messages. Oracle: digest = own keccak(domain || keccak(ownXDR(set)) || keccak(ownXDR((kind,batch)))), acceptance = set installed and within retention and weight of verify_strict-valid signatures >= threshold. non-trivial = perturbation present, or signing subset not a prefix, or signed weight == threshold exactly; distinct by Debug hash. A share of the random cases is an entry-point sweep (construction as described for C13: the exported functions of all shipped contracts read from the sources of the tree under test, a complete deployed system, pooled arguments - including well-formed signer sets nobody installed and proofs properly signed by the gateway's own signer set over digests that belong to no command -, every require_auth satisfied by the host's mock and recorded; entry points absent from the pinned inventory get 300 deterministic cases each); oracle: no call approves a message (status of pre-approved and fresh ids, message_approved events) since no valid proof for any approval exists in these cases; non-trivial = the call succeeded"
     }
     fn assumptions(&self) -> Vec<&'static str> {
         vec!["a proof whose valid signatures already reach the threshold but which also carries an invalid signature is unconstrained by the statement (Either)"]
